@@ -1,10 +1,12 @@
 from props import LEAN_TB, CORR_TB, TRANS_TB
 
 PROP = dict(
-    lean=["Tcell.Props.C11"], namespaces=["Tcell.Props.C11"], engines=["text"],
+    lean=["Tcell.Props.C11"], namespaces=["Tcell.Props.C11"], engines=["text", "pipepaste"],
     trusted_base=[LEAN_TB, CORR_TB, TRANS_TB,
                   "hand-written model of the input parser (lean/Tcell/Model/Parser.lean, tscreen.go:1295-1812) and of the read loop (`feedAll`, Model/TextInput.lean, tscreen.go:1890), tied to the code by the `text` engine through tcell.VerifParser.Feed",
                   "`decUtf8` models x/text UTF8Validator + utf8.DecodeRune (proved to obey the codec laws); `decTable`/`decMulti` model the charmap and multi-byte decoders of golang.org/x/text: the codec laws they are proved to obey are validated exhaustively on the real decoders through the real parser by the `text law` lines",
+                  "the reference decoder of a charset NAME is the harness's own table (harness/engines/refcharsets.go: IANA / POSIX codeset names → golang.org/x/text and gdamore/encoding code pages, every name and alias encoding/all.go registers), never tcell.GetEncoding: a name registered with another charset's table is a finding (codec-law-full / text-rune-lost)",
+                  "engine `pipepaste` (harness/sched under the schedule controller, xterm-256color): a paste whose end marker is lost (Suspend+Resume or DisablePaste/EnablePaste in the middle of it) followed by a complete paste must come out as START text END (classes paste-marker-lost, paste-marker-lost-after-resume)",
                   "key tables of the database entries are the ones the real constructor builds (translator dump `Tcell.Gen.dbTables`)"],
     assumptions=["no escape-timer expiry between the reads of one text (expiry is a separate input, C02)",
                  "no pending ESC when the text starts (otherwise the first rune carries ModAlt by design)",
